@@ -42,7 +42,13 @@ RenderGroup(x, i, s) == JoinBy([j \in DOMAIN x[i] |-> RenderLit(x[i][j], LitStyl
 RenderArgs(x, s) == [i \in DOMAIN x |-> RenderGroup(x, i, s)]
 StrIn(x, s)  == TextIn(JoinBy(RenderArgs(x, s), <<" ">>))
 LstIn(x, s)  == ListIn(RenderArgs(x, s))
+\* argument list with blanks next to the commas and at the ends of an argument: "@a, -@b", "a , b", " a,b "
+CommaSp(k) == CASE k % 3 = 1 -> <<",", " ">> [] k % 3 = 2 -> <<" ", ",", " ">> [] OTHER -> <<",">>
+Pad(k) == IF k % 3 = 0 THEN <<" ">> ELSE <<>>
+LstSpIn(x, s) == ListIn([i \in DOMAIN x |->
+                    Pad(i + s) \o JoinBy([j \in DOMAIN x[i] |-> RenderLit(x[i][j], LitStyle(s, i, j))], CommaSp(i + s)) \o Pad(i + s)])
 V1Inputs(x) == {StrIn(x, s) : s \in Styles} \cup {LstIn(x, s) : s \in Styles}
+               \cup {LstSpIn(x, s) : s \in Styles \cap {2, 4}}
 
 \* mixed texts: the old-style arguments of a formula with a negated literal, glued with new-style operators
 HasNeg(x) == \E i \in DOMAIN x : \E j \in DOMAIN x[i] : x[i][j].neg
